@@ -53,7 +53,11 @@ class IR(AuxDataContainer):
             v._remove_from_uuid_cache(self._node._local_uuid_cache)
 
         def _add(self, v: Module) -> None:
-            if v._ir is not None:
+            if v._ir is self._node:
+                # Also while the IR is being constructed (the same module
+                # listed twice), when it has no modules attribute yet.
+                self.remove(v)
+            elif v._ir is not None:
                 v._ir.modules.remove(v)
             v._ir = self._node
             v._add_to_uuid_cache(self._node._local_uuid_cache)
